@@ -360,22 +360,30 @@ def Func.boundary (F : Func α) (axis side : Nat) : Func α :=
            c := (List.range (prod dims' * F.ncomp)).map (fun k => F.at (sliceIndex F.dims F.ncomp axis side k)) }
 
 /-- `copy()`: `BSplineFunc(kvs.copy(), coeffs.copy())` resp.
-`NurbsFunc(kvs.copy(), coeffs.copy(), None, premultiplied=True)` — the latter re-derives
-`_isscalar` from the trailing axis of the stored coefficients, which always exists: the copy of a
-scalar NURBS is a `(1,)`-vector NURBS. -/
-def Func.copy (F : Func α) : Func α := if F.nurbs then { F with isscalar := false } else F
+`NurbsFunc(kvs.copy(), coeffs.copy(), None, premultiplied=True)` followed (since 91ad8af / f22e87b)
+by `g._isscalar = self._isscalar; g._support_override = self._support_override`: the identity on
+the stored data.  `asPinned = true` is the earlier code, which re-derived `_isscalar` from the
+trailing axis of the stored coefficients (always present): the copy of a scalar NURBS was a
+`(1,)`-vector NURBS. -/
+def Func.copy (F : Func α) (asPinned : Bool := false) : Func α :=
+  if asPinned && F.nurbs then { F with isscalar := false } else F
 
-/-- `boundary(bdspec)` including what the constructors do with the sliced array:
-* NURBS: `NurbsFunc(kvs, coeffs, weights=None, premultiplied=True)` (scalar flag lost);
-* a 1-D coefficient array is taken for a coefficient *vector* (`assert coeffs.shape[0] == np.prod(N)`,
-  then `reshape(N)`): for a curve (`sdim = 1`, `N = ()`) this asserts unless the trailing axis has
-  length 1, in which case the axis is dropped. -/
-def Func.boundaryCoded (F : Func α) (axis side : Nat) : Except String (Func α) :=
+/-- `boundary(bdspec)` including what the constructors do with the sliced array.  Current code
+(bd2c016, 91ad8af): the slice is used as it is (a 1-D array is reshaped as a flat coefficient
+vector only when `sdim > 0`), and a NURBS boundary keeps `_isscalar`.
+`asPinned = true` is the earlier code:
+* NURBS: `NurbsFunc(kvs, coeffs, weights=None, premultiplied=True)` lost the scalar flag;
+* a 1-D coefficient array was always taken for a coefficient *vector*
+  (`assert coeffs.shape[0] == np.prod(N)`, then `reshape(N)`): for a curve (`sdim = 1`, `N = ()`)
+  this asserted unless the trailing axis had length 1, in which case the axis was dropped. -/
+def Func.boundaryCoded (F : Func α) (axis side : Nat) (asPinned : Bool := false) : Except String (Func α) :=
   let R := F.boundary axis side
-  if F.dims.length = 1 ∧ F.vshape.length = 1 then
-    if F.vshape = [1] ∧ ¬ F.nurbs then .ok { R with vshape := [] }
-    else .error "err-AssertionError"
-  else .ok (if F.nurbs then { R with isscalar := false } else R)
+  if asPinned then
+    if F.dims.length = 1 ∧ F.vshape.length = 1 then
+      if F.vshape = [1] ∧ ¬ F.nurbs then .ok { R with vshape := [] }
+      else .error "err-AssertionError"
+    else .ok (if F.nurbs then { R with isscalar := false } else R)
+  else .ok R
 
 /-! #### outer operations.  `kvs = G1.kvs + G2.kvs`: G1's axes come first (slow), G2's last. -/
 
